@@ -130,6 +130,9 @@ func cmdUnit(args []string) {
 					st = "FAIL"
 				}
 				fmt.Printf("%s %-8s %-8s %5dms %s %s\n", st, o.Result, o.Solver, o.TimeMs, o.Name, o.Pos)
+				if !ok && !o.Cover {
+					fmt.Printf("     goal: %s\n", truncate(o.Goal.String(), 300))
+				}
 				if !ok && o.Output != "" && *verbose {
 					fmt.Println(truncate(o.Output, 1500))
 				}
